@@ -11,6 +11,9 @@ Results go to /verif/seeded/<name>/result.json and the table /verif/seeded/READM
 import json, os, subprocess, sys, re, glob
 
 VERIF = "/verif"
+# --sandbox <dir>: work on copies (<dir>/repo, <dir>/verif) so that /repo and /verif stay usable meanwhile
+REPO = "/repo"
+RUN = "/verif"
 ALL = ["C%02d" % i for i in range(1, 21)]
 
 
@@ -19,20 +22,35 @@ def sh(cmd, **kw):
 
 
 def clean():
-    return sh("git -C /repo status --porcelain -- src Cargo.toml tests").stdout.strip() == ""
+    return sh(f"git -C {REPO} status --porcelain -- src Cargo.toml tests").stdout.strip() == ""
 
 
 def run_checks(checks, tier, seeds):
     res = {}
     for c in checks:
         for s in seeds:
-            p = sh(f"cd {VERIF} && VERIF_SEED={s} ./check {c} {tier}", timeout=7200)
+            p = sh(f"cd {RUN} && VERIF_SEED={s} ./check {c} {tier}", timeout=7200)
             sigs = re.findall(r"signature=(\S+)", p.stdout)
             res.setdefault(c, []).append({"seed": s, "exit": p.returncode, "signatures": sigs[:6], "inconclusive": [l for l in p.stdout.splitlines() if l.startswith("INCONCLUSIVE")][:2]})
     return res
 
 
+def sandbox(d):
+    global REPO, RUN
+    os.makedirs(d, exist_ok=True)
+    sh(f"rsync -a --delete --exclude target /repo/ {d}/repo/")
+    sh(f"git -C {d}/repo checkout -- . ")
+    sh(f"rsync -a --delete --exclude target --exclude replays --exclude evidence --exclude seeded --exclude .git /verif/ {d}/verif/")
+    sh(f"mkdir -p {d}/verif/evidence {d}/verif/replays")
+    sh(f"sed -i 's#path = \"/repo\"#path = \"{d}/repo\"#' {d}/verif/harness/Cargo.toml")
+    REPO, RUN = f"{d}/repo", f"{d}/verif"
+
+
 def main():
+    if "--sandbox" in sys.argv:
+        i = sys.argv.index("--sandbox")
+        sandbox(sys.argv[i + 1])
+        del sys.argv[i:i + 2]
     args = [a for a in sys.argv[1:] if not a.startswith("--")]
     all_checks = "--all-checks" in sys.argv
     tier = "quick"
@@ -50,7 +68,7 @@ def main():
         if not clean():
             print("refusing: /repo has local changes")
             sys.exit(2)
-        a = sh(f"git -C /repo apply {d}/patch.diff")
+        a = sh(f"git -C {REPO} apply {d}/patch.diff")
         if a.returncode != 0:
             print(name, "patch does not apply:", a.stderr[:300])
             continue
@@ -58,7 +76,7 @@ def main():
             checks = ALL if all_checks else [meta["property"]] + [c for c in meta.get("also_run", [])]
             res = run_checks(checks, tier, seeds)
         finally:
-            sh("git -C /repo checkout -- .")
+            sh(f"git -C {REPO} checkout -- .")
         caught = {c: any(r["exit"] == 1 for r in rs) for c, rs in res.items()}
         out = {"name": name, "property": meta["property"], "tier": tier, "seeds": seeds, "results": res, "caught_by": sorted(c for c, v in caught.items() if v)}
         prev = {}
